@@ -6,7 +6,7 @@ copies), B6 (adjacency symmetry), B7 (pending-change set). All syntax-directed o
 import ast
 from .core import AnalysisError
 from .model import ClassInfo
-from .astutil import src, strip_doc, if_chain, terminates
+from .astutil import single_defs, src, strip_doc, if_chain, terminates
 from .effects import Protocol
 
 MOL = 'chython.containers.molecule:MoleculeContainer'
@@ -698,15 +698,19 @@ def rule_symmetry(ck, repo):
                 ctx = Ctx(f, mc, 'SELF', {}, 0, (f.fq,))
                 ctx.aliases = P.build_aliases(f)
                 stores, dels, rows_new, rows_del = [], [], [], []
+                _sd = single_defs(f.node)
                 for node in ast.walk(f.node):
                     if isinstance(node, ast.Subscript) and isinstance(node.ctx, (ast.Store, ast.Del)):
                         o = P.owner_of(ctx, node.value)
                         if o[0] != 'R' or o[-1] != '_bonds':
                             continue
-                        depth2 = isinstance(node.value, ast.Subscript) and P.owner_of(ctx, node.value.value)[-1] == '_bonds' and \
-                            _is_bonds_root(ctx, P, node.value.value)
+                        row = node.value
+                        if isinstance(row, ast.Name) and isinstance(_sd.get(row.id), ast.Subscript):
+                            row = _sd[row.id]  # env = bonds[n]; del env[m]: the row was given a name
+                        depth2 = isinstance(row, ast.Subscript) and P.owner_of(ctx, row.value)[-1] == '_bonds' and \
+                            _is_bonds_root(ctx, P, row.value)
                         if depth2:
-                            pair = (src(node.value.slice), src(node.slice))
+                            pair = (src(row.slice), src(node.slice))
                             (stores if isinstance(node.ctx, ast.Store) else dels).append((pair, node))
                         elif _is_bonds_root(ctx, P, node.value):
                             (rows_new if isinstance(node.ctx, ast.Store) else rows_del).append((src(node.slice), node))
@@ -823,10 +827,22 @@ def rule_changed_set(ck, repo):
             site = i
         create, add = (i.body, i.orelse) if src(i.test) == 'self._changed is None' else (i.orelse, i.body)
         created = set()
+
+        def _elements(v):
+            """the members of a set display / set(<display>) / tuple or list display"""
+            if isinstance(v, ast.Call) and src(v.func) in ('set', 'frozenset') and len(v.args) == 1:
+                v = v.args[0]
+            if isinstance(v, (ast.Set, ast.Tuple, ast.List)):
+                return {rename.get(src(e), src(e)) for e in v.elts}
+            return None
         for s in create:
-            if isinstance(s, ast.Assign) and src(s.targets[0]) == 'self._changed' and isinstance(s.value, ast.Set):
-                created = {rename.get(src(e), src(e)) for e in s.value.elts}
+            if isinstance(s, ast.Assign) and src(s.targets[0]) == 'self._changed' and _elements(s.value) is not None:
+                created = _elements(s.value)
         added = {rename.get(src(c.args[0]), src(c.args[0])) for s in add for c in ast.walk(s) if isinstance(c, ast.Call) and src(c.func) == 'self._changed.add' and c.args}
+        for s in add:
+            for c in ast.walk(s):
+                if isinstance(c, ast.Call) and src(c.func) == 'self._changed.update' and len(c.args) == 1 and _elements(c.args[0]) is not None:
+                    added |= _elements(c.args[0])
         ck.decide(created == added and created, R, f'{name}:branches-agree', sorted(created),
                   f'{name}: create-branch records {sorted(created)}, add-branch records {sorted(added)}', file=f.file, line=i.lineno, func=f.qualname)
         if want is not None:
